@@ -84,7 +84,12 @@ WantAck(kind) ==
     [] kind = "unsub" -> "UNSUBACK"
     [] OTHER -> "NONE"
 
-LocalFailure(k) == k \in {"PacketIdInUse", "StreamingCancelled", "Encode"}
+LocalFailure(k) == k \in {"PacketIdInUse", "StreamingCancelled", "Encode", "ExpectPayload"}
+\* a streamed PUBLISH may still owe payload: a streamed QoS 1 send whose future is alive, or a streamed QoS 0 send
+\* that returned ok and has not been given all its bytes (an over-approximation: never a false alarm)
+MayOwePayload(m) == \E k \in 1..Len(m.snd) :
+                       \/ (m.snd[k].kind = "stream1" /\ m.snd[k].st = "live")
+                       \/ (m.snd[k].kind = "stream0" /\ m.snd[k].owed > 0)
 
 ----------------------------------------------------------------------------
 OnCfg(m, ev) ==
@@ -156,7 +161,8 @@ OnSendCall(m, ev) ==
       \* cid: identifier chosen by the caller (0 = automatic); busy: the identifiers that were in use on the wire at
       \* some moment since the call (the library may decide "in use" at the call or at a later poll, and an
       \* automatic identifier may collide with one the caller of another send chose)
-      rec == [s |-> ev.s, kind |-> kind, st |-> "live", id |-> 0, cid |-> ev.id, busy |-> m.inuse]
+      rec == [s |-> ev.s, kind |-> kind, st |-> "live", id |-> 0, cid |-> IF kind = "chunk" THEN 0 ELSE ev.id, busy |-> m.inuse,
+              plen |-> ev.n, owed |-> 0, of |-> IF kind = "chunk" THEN ev.id ELSE 0]
       m1 == IF i = 0 THEN [m EXCEPT !.snd = Append(@, rec)] ELSE [m EXCEPT !.snd[i] = rec]
   IN IF ev.k = "q1nb" THEN [m1 EXCEPT !.noblock = TRUE] ELSE m1
 
@@ -164,7 +170,7 @@ OnSendCall(m, ev) ==
 OnRelease(m, ev) ==
   LET i == SndIdx(m, ev.s)
       rid == IF i > 0 THEN m.snd[i].id ELSE 0
-      rec == [s |-> ev.n, kind |-> "rel", st |-> "live", id |-> rid, cid |-> 0, busy |-> {}]
+      rec == [s |-> ev.n, kind |-> "rel", st |-> "live", id |-> rid, cid |-> 0, busy |-> {}, plen |-> 0, owed |-> 0, of |-> 0]
       j == SndIdx(m, ev.n)
       m1 == IF j = 0 THEN [m EXCEPT !.snd = Append(@, rec)] ELSE [m EXCEPT !.snd[j] = rec]
   IN [m1 EXCEPT !.relOwed = @ + 1, !.relIds = IF rid > 0 THEN @ \cup {rid} ELSE @]
@@ -174,11 +180,17 @@ OnReceiptDrop(m, ev) ==
       rid == IF i > 0 THEN m.snd[i].id ELSE 0
   IN [m EXCEPT !.relOwed = @ + 1, !.relIds = IF rid > 0 THEN @ \cup {rid} ELSE @]
 
-OnSendDone(m, ev) ==
-  LET i == SndIdx(m, ev.s) IN
-  IF i = 0 THEN m ELSE
-  LET kind == m.snd[i].kind
+OnSendDone(mm, ev) ==
+  LET i == SndIdx(mm, ev.s) IN
+  IF i = 0 THEN mm ELSE
+  LET kind == mm.snd[i].kind
       want == WantAck(kind)
+      \* payload accounting of streamed QoS 0 sends
+      j == IF kind = "chunk" THEN SndIdx(mm, mm.snd[i].of) ELSE 0
+      m == IF kind = "stream0" /\ ev.k = "ok" THEN [mm EXCEPT !.snd[i].owed = mm.snd[i].plen]
+           ELSE IF kind = "chunk" /\ j > 0 /\ mm.snd[j].kind = "stream0"
+             THEN [mm EXCEPT !.snd[j].owed = IF ev.k = "ok" /\ @ > mm.snd[i].plen THEN @ - mm.snd[i].plen ELSE 0]
+           ELSE mm
       m0 == [m EXCEPT !.snd[i].st = "done"]
   IN
   IF ev.k \in {"ok", "receipt"} THEN
@@ -199,6 +211,11 @@ OnSendDone(m, ev) ==
                       ELSE m1
   ELSE IF ev.k = "PacketIdInUse" /\ Healthy(m) /\ ev.id > 0 /\ ev.id \notin m.inuse /\ ev.id \notin m.snd[i].busy
      THEN [m0 EXCEPT !.suspects = @ \cup {ev.id}]
+  ELSE IF ev.k = "ExpectPayload" /\ Healthy(m) /\ kind # "chunk" /\ ~MayOwePayload(mm)
+     THEN \* refused "a streamed PUBLISH still owes payload" although no streamed send is in progress (e.g. an
+          \* earlier streamed send failed locally and left the sink in streaming mode): a local failure must not
+          \* make later sends fail
+          Fail(m0, "C06:send-refused-although-no-payload-is-owed")
   ELSE IF ev.k = "UnexpectedRelease" /\ Healthy(m)
      THEN Fail(m0, "C14:release-refused")
   ELSE IF ev.k = "Disconnected" /\ Healthy(m) /\ kind # "chunk"
